@@ -246,6 +246,58 @@ def stepE2E (exp : String) (rest obs : List String) : Option Verdict := do
              model := v0.model }
   | _ => none
 
+/-- `tmpl <signal>/<exporter> 0 <file> => same | differs:<sibling|template>:<file>:<line> | err:<what>`: the rendered
+copies of the templated transform code (this package, the sibling exporter's, the template) are textually identical
+modulo the package import comment and the exporter's import-path prefix — so the model of one copy is the model of
+all. Model-free: anything but `same` is a failure. -/
+def stepTmpl (file : String) (obs : List String) : Option Verdict :=
+  match obs with
+  | [r] =>
+    if r == "same" then some { agree := true, spec := "ok", nontrivial := true, branches := "tmpl:" ++ file, model := "=" }
+    else if r.startsWith "differs:" || r.startsWith "err:" then
+      some { agree := false, spec := "FAIL", nontrivial := true, branches := "tmpl:" ++ file, model := "same" }
+    else none
+  | _ => none
+
+/-- `e2epair pair <exp> <gen>:<seed> <nretry> <final> => <attempts gz> <attempts id> <enc gz> <enc id> <same|differs|nodata>`
+(harness/bb/otlpe2e/c13_pair_test.go): two exporters of one kind that differ only in the compression option export
+the same batch; the collector answers `nretry` retryable answers, then the final one (success, partial success,
+warning-only partial success, non-empty response). Oracle: every attempt of both runs decoded to ONE message
+(`same`: the payload does not depend on the compression), and the batch was sent exactly `nretry + 1` times in each
+run — a partial success is a final answer: nothing is re-sent after it (no item delivered twice). `agree`
+additionally requires that the two runs really used gzip and identity. -/
+def stepE2EPair (inp obs : List String) : Option Verdict :=
+  match inp, obs with
+  | [exp, _, nretry, final], [ag, ai, eg, ei, eq] => do
+    let nr ← nretry.toNat?
+    let ag ← ag.toNat?
+    let ai ← ai.toNat?
+    if eq != "same" && eq != "differs" && eq != "nodata" then none else
+    let want := nr + 1
+    let ok := eq == "same" && ag == want && ai == want
+    let agree := ok && eg == "gzip" && ei == "id"
+    let fields := final.splitOn ";"
+    let cls :=
+      if exp.toList.drop 1 == ['h'] then
+        (match fields with
+         | [_, _, _, b] =>
+           if b == "e" then "final-ok" else if b.startsWith "n" then "final-nonempty"
+           else if b.startsWith "p" then (match b.splitOn ":" with
+             | [_, rej, _] => if rej == "0" then "final-warning" else "final-partial"
+             | _ => "final-?")
+           else "final-?"
+         | _ => "final-?")
+      else
+        (match fields with
+         | [_, _, p] => if p == "-" then "final-ok" else (match p.splitOn ":" with
+             | [rej, _] => if rej == "0" then "final-warning" else "final-partial"
+             | _ => "final-?")
+         | _ => "final-?")
+    pure { agree := agree, spec := if ok then "ok" else "FAIL", nontrivial := true,
+           branches := s!"pair-{exp},{cls},retries{nr}",
+           model := if agree then "=" else s!"{want} {want} gzip id same" }
+  | _, _ => none
+
 def stepLine (_ : Unit) (toks : List String) : Unit × Option Verdict :=
   let (inp, obs) := splitObs toks
   match inp with
@@ -257,6 +309,8 @@ def stepLine (_ : Unit) (toks : List String) : Unit × Option Verdict :=
   | "zipkinseq" :: _ :: _ :: rest => ((), stepZipkinSeq rest obs)
   | "zipkinm" :: _ :: _ :: rest => ((), stepZipkinModel rest obs)
   | ["sens", _, _, field] => ((), stepSens field obs)
+  | ["tmpl", _, _, file] => ((), stepTmpl file obs)
+  | "e2epair" :: _ :: rest => ((), stepE2EPair rest obs)
   | _ => ((), none)
 
 def main : IO Unit := Wire.run () stepLine
